@@ -43,6 +43,7 @@ def run(ctx: Ctx):
     r15_4(ctx)
     r15_5(ctx)
     c16.r16_1(ctx, rule="R15.6")
+    c16.r16_2b(ctx, rule="R15.6")       # every line of a section is filed under that section (the bond graph reads them from there)
 
 
 def r15_1(ctx: Ctx):
